@@ -4,6 +4,7 @@
 #define FILENAME_C(line) FILENAME_FOR_EXCEPTIONS_C("src/libawkward/array/IndexedArray.cpp", line)
 
 #include <sstream>
+#include <functional>
 #include <type_traits>
 
 #include "awkward/kernels.h"
@@ -2246,43 +2247,63 @@ namespace awkward {
       return out;
     }
     else {
-      if (RegularArray* raw =
-          dynamic_cast<RegularArray*>(out.get())) {
-        out = raw->toListOffsetArray64(true);
-      }
-      if (ListOffsetArray64* raw =
-          dynamic_cast<ListOffsetArray64*>(out.get())) {
-        Index64 outoffsets(starts.length() + 1);
-        if (starts.length() > 0  &&  starts.getitem_at_nowrap(0) != 0) {
+      // put the missing values back into the lists that came out of the
+      // reduction; a RecordArray in between (reducers see through records)
+      // hands the job to each of its fields
+      std::function<const ContentPtr(const ContentPtr&)> fix_offsets =
+          [&](const ContentPtr& reduced) -> const ContentPtr {
+        ContentPtr tofix = reduced;
+        if (RegularArray* raw =
+            dynamic_cast<RegularArray*>(tofix.get())) {
+          tofix = raw->toListOffsetArray64(true);
+        }
+        if (ListOffsetArray64* raw =
+            dynamic_cast<ListOffsetArray64*>(tofix.get())) {
+          Index64 outoffsets(starts.length() + 1);
+          if (starts.length() > 0  &&  starts.getitem_at_nowrap(0) != 0) {
+            throw std::runtime_error(
+              std::string("reduce_next with unbranching depth > negaxis expects a "
+                          "ListOffsetArray64 whose offsets start at zero ")
+              + FILENAME(__LINE__));
+          }
+          struct Error err4 = kernel::IndexedArray_reduce_next_fix_offsets_64(
+            kernel::lib::cpu,   // DERIVE
+            outoffsets.data(),
+            starts.data(),
+            starts.length(),
+            outindex.length());
+          util::handle_error(err4, classname(), identities_.get());
+
+          return std::make_shared<ListOffsetArray64>(
+            raw->identities(),
+            raw->parameters(),
+            outoffsets,
+            IndexedOptionArray64(Identities::none(),
+                                 util::Parameters(),
+                                 outindex,
+                                 raw->content()).simplify_optiontype());
+        }
+        else if (RecordArray* raw =
+                 dynamic_cast<RecordArray*>(tofix.get())) {
+          ContentPtrVec contents;
+          for (auto content : raw->contents()) {
+            contents.push_back(fix_offsets(content));
+          }
+          return std::make_shared<RecordArray>(raw->identities(),
+                                               raw->parameters(),
+                                               contents,
+                                               raw->recordlookup(),
+                                               raw->length());
+        }
+        else {
           throw std::runtime_error(
-            std::string("reduce_next with unbranching depth > negaxis expects a "
-                        "ListOffsetArray64 whose offsets start at zero ")
+            std::string("reduce_next with unbranching depth > negaxis is only "
+                        "expected to return RegularArray or ListOffsetArray64; "
+                        "instead, it returned ") + tofix.get()->classname()
             + FILENAME(__LINE__));
         }
-        struct Error err4 = kernel::IndexedArray_reduce_next_fix_offsets_64(
-          kernel::lib::cpu,   // DERIVE
-          outoffsets.data(),
-          starts.data(),
-          starts.length(),
-          outindex.length());
-        util::handle_error(err4, classname(), identities_.get());
-
-        return std::make_shared<ListOffsetArray64>(
-          raw->identities(),
-          raw->parameters(),
-          outoffsets,
-          IndexedOptionArray64(Identities::none(),
-                               util::Parameters(),
-                               outindex,
-                               raw->content()).simplify_optiontype());
-      }
-      else {
-        throw std::runtime_error(
-          std::string("reduce_next with unbranching depth > negaxis is only "
-                      "expected to return RegularArray or ListOffsetArray64; "
-                      "instead, it returned ") + out.get()->classname()
-          + FILENAME(__LINE__));
-      }
+      };
+      return fix_offsets(out);
     }
 
     return out;
